@@ -100,7 +100,7 @@ def Sm.isLit : Sm → Bool
   | _ => false
 
 inductive UnK
-  | neg | not | isNull | length | upper | lower | abs | year | month | day | extractYear
+  | neg | not | isNull | length | upper | lower | abs | sqrt | ln | exp | sign | year | month | day | extractYear
   | count | sum | min | max | avg | sumOver | maxOver | countOver | avgOver
   | cast (to : Ty)
   deriving DecidableEq, Repr, Inhabited
@@ -109,15 +109,15 @@ def castTargets : List Ty :=
   [.boolean, .tinyint, .smallint, .int, .bigint, .double, .decimalP, .text, .date, .timestampntz]
 
 def UnK.all : List UnK :=
-  [.neg, .not, .isNull, .length, .upper, .lower, .abs, .year, .month, .day, .extractYear, .count, .sum, .min, .max, .avg,
+  [.neg, .not, .isNull, .length, .upper, .lower, .abs, .sqrt, .ln, .exp, .sign, .year, .month, .day, .extractYear, .count, .sum, .min, .max, .avg,
    .sumOver, .maxOver, .countOver, .avgOver] ++ castTargets.map .cast
 
 inductive BinK
-  | add | sub | mul | div | intdiv | mod | eq | neq | lt | le | gt | ge | and | or | dpipe | like | coalesce | nullif | concat
+  | add | sub | mul | div | intdiv | mod | pow | eq | neq | lt | le | gt | ge | and | or | dpipe | like | coalesce | nullif | concat
   deriving DecidableEq, Repr, Inhabited
 
 def BinK.all : List BinK :=
-  [.add, .sub, .mul, .div, .intdiv, .mod, .eq, .neq, .lt, .le, .gt, .ge, .and, .or, .dpipe, .like, .coalesce, .nullif, .concat]
+  [.add, .sub, .mul, .div, .intdiv, .mod, .pow, .eq, .neq, .lt, .le, .gt, .ge, .and, .or, .dpipe, .like, .coalesce, .nullif, .concat]
 
 inductive TernK | caseWhen | iff
   deriving DecidableEq, Repr, Inhabited
@@ -126,8 +126,9 @@ def TernK.all : List TernK := [.caseWhen, .iff]
 
 /-- the sqlglot node classes whose EXPRESSION_METADATA entry the model reads -/
 inductive NodeC
-  | neg | not | is | length | upper | lower | abs | year | month | day | extract | count | sum | min | max | avg | window | cast
-  | add | sub | mul | div | intdiv | mod | eq | neq | lt | le | gt | ge | and | or | dpipe | like | coalesce | nullif | concat
+  | neg | not | is | length | upper | lower | abs | sqrt | ln | exp | sign | year | month | day | extract | count | sum | min | max | avg
+  | window | cast
+  | add | sub | mul | div | intdiv | mod | pow | eq | neq | lt | le | gt | ge | and | or | dpipe | like | coalesce | nullif | concat
   | case | if_ | literal | null | boolean | interval
   deriving DecidableEq, Repr, Inhabited
 
@@ -288,6 +289,7 @@ def leafReturns (c : NodeC) : Ty :=
 
 def unNode : UnK → NodeC
   | .neg => .neg | .not => .not | .isNull => .is | .length => .length | .upper => .upper | .lower => .lower | .abs => .abs
+  | .sqrt => .sqrt | .ln => .ln | .exp => .exp | .sign => .sign
   | .year => .year | .month => .month | .day => .day | .extractYear => .extract
   | .count | .countOver => .count | .sum | .sumOver => .sum | .min => .min | .max | .maxOver => .max | .avg | .avgOver => .avg
   | .cast _ => .cast
@@ -305,7 +307,7 @@ def annotUn (k : UnK) (a : Sm) : Ty :=
   if isOver k then annotNode T .window [.of inner] .unknown else inner        -- Window(this = the aggregate)
 
 def binNode : BinK → NodeC
-  | .add => .add | .sub => .sub | .mul => .mul | .div => .div | .intdiv => .intdiv | .mod => .mod | .eq => .eq | .neq => .neq
+  | .add => .add | .sub => .sub | .mul => .mul | .div => .div | .intdiv => .intdiv | .mod => .mod | .pow => .pow | .eq => .eq | .neq => .neq
   | .lt => .lt | .le => .le | .gt => .gt | .ge => .ge | .and => .and | .or => .or | .dpipe => .dpipe | .like => .like
   | .coalesce => .coalesce | .nullif => .nullif | .concat => .concat
 
@@ -393,7 +395,7 @@ def domUn (k : UnK) (a : Sm) (_ea : ETy) : Bool :=
   match k with
   | .not | .isNull | .count | .countOver => true
   | .cast to => castTargets.contains to
-  | .neg | .abs | .sum | .sumOver | .avg | .avgOver => isNum a
+  | .neg | .abs | .sqrt | .ln | .exp | .sign | .sum | .sumOver | .avg | .avgOver => isNum a
   | .length | .upper | .lower => smClass a == .text
   | .year | .month | .day | .extractYear => smClass a == .date || smClass a == .timestamp
   | .min | .max | .maxOver => true
@@ -403,7 +405,7 @@ def branchesOk (a b : Sm) : Bool :=
   (isNum a && isNum b) || smClass a == smClass b || isNullTy a || isNullTy b
 
 def isArith : BinK → Bool
-  | .add | .sub | .mul | .div | .intdiv | .mod => true
+  | .add | .sub | .mul | .div | .intdiv | .mod | .pow => true
   | _ => false
 
 def domBin (k : BinK) (a b : Sm) (ea eb : ETy) : Bool :=
@@ -412,6 +414,7 @@ def domBin (k : BinK) (a b : Sm) (ea eb : ETy) : Bool :=
   | .dpipe => ea != .null && eb != .null
   | .coalesce => branchesOk a b
   | .nullif => smClass a == smClass b || isNullTy b
+  | .pow => isNum a && isNum b
   | k =>
     -- arithmetic
     (isNum a && isNum b)
